@@ -51,6 +51,7 @@ fn main() {
         "C06" => checks::c06::run(tier),
         "C14" => checks::c14::run(tier),
         "silent-child" => checks::c14::silent_child(),
+        "C14-shim" => checks::c14::shim_child(tier),
         "C02" => checks::c02::run(tier),
         "C10" => checks::c10::run(tier),
         "C17" => checks::c17::run(tier),
